@@ -32,6 +32,11 @@ def _raise_op_timeout(signum, frame):
     raise _OpTimeout()
 
 
+def rng_free_same_type(p, q):
+    """Same kind of control point (so that a junction point can be shared by value)."""
+    return type(p) is type(q) and getattr(p, "shape", None) == getattr(q, "shape", None) and getattr(p, "dtype", None) == getattr(q, "dtype", None)
+
+
 TS = ["1/2", "1/3", "2/3", "1/4", "3/4", "1/5", "5/8"]
 MAXWORLD = 6
 PROFILES = ["frac", "frac", "vec", "fvec", "fvec", "ffloat", "zarr", "ivec", "sim-full", "sim-minimal", "sim-nofloat", "sim-bounded", "sim-inplace", "sim-floatable"]
@@ -39,7 +44,7 @@ MUTATORS = ["knot_insert", "knot_remove", "degree_increase", "degree_decrease", 
             "set_ctrlpoints", "set_weights", "set_knotvector", "set_knotvector", "set_degree", "update", "fit_curve", "fit_points",
             "fit_function", "apply"]
 COMPOSITE = ("knot_clean", "degree_clean", "clean")
-NONMUT = ["eval", "eval", "split", "join", "arith", "arith", "arith_scalar", "arith_scalar", "neg", "eq", "copy", "fraction",
+NONMUT = ["eval", "eval", "split", "join", "concat", "arith", "arith", "arith_scalar", "arith_scalar", "neg", "eq", "copy", "fraction",
           "derivate", "integrate", "project", "intersect", "str"]
 
 
@@ -79,7 +84,7 @@ def gen_plan(prop, seed, tier):
     ops = []
     ncreate = rng.randint(1, 3) if profile != "fvec" else rng.randint(2, 3)
     for i in range(ncreate):
-        layout = rng.choice(["independent", "independent", "shared-kv", "shared-all", "copy", "deepcopy", "elevated-line"]) if i > 0 else \
+        layout = rng.choice(["independent", "independent", "shared-kv", "shared-all", "copy", "deepcopy", "elevated-line", "adjacent"]) if i > 0 else \
             rng.choice(["independent", "independent", "independent", "elevated-line"])
         rational = rng.random() < 0.4
         if profile == "fvec" and rng.random() < 0.4:
@@ -114,7 +119,7 @@ def gen_plan(prop, seed, tier):
             continue
         ops.append(op)
         if rng.random() < 0.08:
-            ops.append({"op": "create", "layout": rng.choice(["shared-kv", "shared-all", "copy", "deepcopy", "independent", "elevated-line"]),
+            ops.append({"op": "create", "layout": rng.choice(["shared-kv", "shared-all", "copy", "deepcopy", "independent", "elevated-line", "adjacent"]),
                         "src": rng.randrange(8), "spec": gen_spec(rng, cls, 2, rng.random() < 0.4), "noctrl": False})
     return {"property": prop, "engine": "curve", "seed": seed, "tier": tier, "config": cfg, "ops": ops}
 
@@ -335,6 +340,18 @@ class CurveEngine:
                 if op.get("prefill"):
                     new.ctrlpoints = [self.mkpoint([j, -j]) for j in range(q + 1)]     # something to lose if the fit is not atomic
                 ctx.probe("layout-coarse-of")
+            elif layout == "adjacent":
+                # a curve of its own degree whose interval begins exactly where another curve's interval ends (operands of `|`)
+                src = self.world[op["src"] % len(self.world)]
+                L0 = self.knots_of(spec)
+                end = src.knotvector[-1]
+                L = [end + (k - L0[0]) for k in L0]
+                pts = [self.mkpoint(c) for c in spec["pts"]]
+                if src.ctrlpoints is not None and rng_free_same_type(src.ctrlpoints[-1], pts[0]):
+                    pts[0] = copy.deepcopy(src.ctrlpoints[-1])      # a continuous junction
+                self.remember(pts)
+                new = self.Curve(L, pts, self.mkweights(spec["weights"]) if "weights" in spec else None)
+                ctx.probe("layout-adjacent")
             elif layout == "elevated-line":
                 # a straight segment or polyline whose degree was raised by the library: every Bezier piece is reducible,
                 # so a "non-mutating" operation that cleans its pieces must not be working on the operand itself
@@ -386,7 +403,10 @@ class CurveEngine:
         b = world[op["b"] % len(world)]
         pre = [self.freeze(c) for c in world]
         self.cur_op = op
+        self.cur_operands = None
         call, receiver, invalid, label = self.prepare(ctx, kind, a, b, op["faulty"], rng)
+        if self.cur_operands is not None:
+            a, b = self.cur_operands
         if call is None:
             ctx.log(kind, "skip")
             return
@@ -496,6 +516,13 @@ class CurveEngine:
                 return None
             return v
         return M.Fr(a) + (M.Fr(b) - M.Fr(a)) * t
+
+    @staticmethod
+    def adjacent(x, y):
+        try:
+            return M.Fr(x.knotvector[-1]) == M.Fr(y.knotvector[0])
+        except (TypeError, ValueError):
+            return False
 
     def polyline_like(self, curve):
         """Geometrically a polyline with segments of non-zero length (whatever its degree): every span's samples lie on the
@@ -793,6 +820,19 @@ class CurveEngine:
                     return parts[1] | parts[0]
                 return parts[0] | parts[1]
             return call, None, faulty, "split-join"
+        if kind == "concat":
+            # left | right on two different curves (of any two degrees) whose intervals are adjacent; anything else is an
+            # incompatible request.  Only I3/I4 are judged: neither operand may change, whatever is returned or raised
+            pairs = [(x, y) for x in self.world for y in self.world
+                     if x is not y and x.ctrlpoints is not None and y.ctrlpoints is not None and self.adjacent(x, y)]
+            if not faulty and pairs and not (a is not b and has and b.ctrlpoints is not None and self.adjacent(a, b)):
+                a, b = pairs[rng.randrange(len(pairs))]
+            ok = a is not b and a.ctrlpoints is not None and b.ctrlpoints is not None and self.adjacent(a, b)
+            if ok:
+                ctx.probe("concat-adjacent-degrees-%s" % ("equal" if a.degree == b.degree else "left-lower" if a.degree < b.degree else "right-lower"))
+            left, right = a, b
+            self.cur_operands = (a, b)
+            return (lambda: left | right), None, not ok, "curve|curve"
         if kind == "arith":
             sym = rng.choice(["+", "-", "*", "/", "@"])
             if (a.weights is not None or b.weights is not None) and (a.degree + b.degree > 3):
